@@ -179,17 +179,31 @@ def run_hypothesis(prop, strategy, max_examples, seed, rec, shrink=True, statefu
                   suppress_health_check=[HealthCheck.too_slow, HealthCheck.data_too_large,
                                          HealthCheck.large_base_example, HealthCheck.filter_too_much])
     last = {}
+    state = {'t_first': None, 'cache': {}}
+    budget = float(os.environ.get('VERIF_SHRINK_S') or 90)
 
     @hypothesis.seed(seed)
     @st
     @given(strategy)
     def test(case):
+        # Shrinking is capped: `budget` seconds after the first failure further candidates are
+        # answered from the cache of cases already seen to fail (so the final replay still fails)
+        # and everything else passes without being run.
+        if state['t_first'] is not None and time.time() - state['t_first'] > budget:
+            v = state['cache'].get(digest(case))
+            if v is not None:
+                last['v'] = v
+                raise v
+            return
         try:
             prop(case, rec)
         except Violation as v:
             if v.case is None:
                 v.case = case
             last['v'] = v
+            if state['t_first'] is None:
+                state['t_first'] = time.time()
+            state['cache'][digest(case)] = v
             raise
 
     try:
